@@ -1,4 +1,4 @@
-import sys; sys.path.insert(0,'/tmp/fixes'); from edit import rep
+import sys; sys.path.insert(0,'/verif/tools'); from edit import rep
 rep('segno/writers.py', """    if scale > 1:
         append_cmd(f'{scale} 0 0 {scale} 0 0 cm')
     if light is not None:
